@@ -22,6 +22,15 @@ OK, FAIL = 0, -1
 UNKNOWN = '?'      # three-valued modified flag: True / False / UNKNOWN
 
 
+def teq(sec, a, b):
+    """title equality: exact, or - in a case-insensitive context - up to the case of ASCII letters"""
+    if a == b:
+        return True
+    if a is None or b is None or not sec.nocase:
+        return False
+    return a.lower() == b.lower() and all(c < 128 for c in a + b)
+
+
 def resolve(store, path):
     """path with '|' separators and name=title / name=index qualifiers -> (section, optstate) or None.
     Only the plain forms the C09 alphabet uses; the full mini-language is refpath (C11)."""
@@ -43,7 +52,7 @@ def resolve(store, path):
             if o.decl.has('T'):
                 idx = None
                 for j, s in enumerate(o.values):
-                    if s.title == qual:
+                    if teq(sec, s.title, qual):
                         idx = j
                         break
                 if idx is None:
@@ -184,7 +193,7 @@ def apply(store, op):
             return 0
         if not (o.decl.has('M') and o.decl.has('T')):
             return None
-        if any(s.title == title for s in o.values):
+        if any(teq(sec, s.title, title) for s in o.values):
             return 0
         o.values.append(SecState(o.decl.sub, sec.nocase, sec.keystrval or o.decl.has('K'), title))
         o.modified = UNKNOWN if o.modified is not True else True
@@ -201,7 +210,7 @@ def apply(store, op):
                 return FAIL
             idx = None
             for j, s in enumerate(o.values):
-                if s.title == key:
+                if teq(store, s.title, key):
                     idx = j
                     break
             if idx is None:
